@@ -3,6 +3,10 @@
 
 use super::crashcase::{chain_boundary_case, gen_crash_case, CHAIN_ENUM};
 use super::newplans::{c17_new_enumerated, c17_new_seeded, C17_NEW_ENUM};
+
+/// searches of 17..40 draws for every supported length x 0, 1, 2 workers: whatever is kept per
+/// searcher across draws (a pool, a counter, a cache) is driven past its first wrap
+pub const DEEP_ENUM: usize = 15;
 use super::AnyCase;
 use crate::framework::Plan;
 use crate::prng::{run_seed, Rng};
@@ -16,10 +20,10 @@ pub struct C17Plan {
 
 impl Plan for C17Plan {
     fn total(&self) -> usize {
-        C17_NEW_ENUM + CHAIN_ENUM + self.seeded_new + self.seeded_crash
+        C17_NEW_ENUM + CHAIN_ENUM + DEEP_ENUM + self.seeded_new + self.seeded_crash
     }
     fn enumerated(&self) -> usize {
-        C17_NEW_ENUM + CHAIN_ENUM
+        C17_NEW_ENUM + CHAIN_ENUM + DEEP_ENUM
     }
     fn case(&self, idx: usize) -> AnyCase {
         if idx < C17_NEW_ENUM {
@@ -29,7 +33,10 @@ impl Plan for C17Plan {
             return AnyCase::Crash(chain_boundary_case(idx - C17_NEW_ENUM));
         }
         let mut rng = Rng::new(run_seed(self.seed, 0xC17, idx as u64));
-        if idx < C17_NEW_ENUM + CHAIN_ENUM + self.seeded_new {
+        if idx < C17_NEW_ENUM + CHAIN_ENUM + DEEP_ENUM {
+            return AnyCase::New(super::newplans::c17_deep_search(idx - C17_NEW_ENUM - CHAIN_ENUM));
+        }
+        if idx < C17_NEW_ENUM + CHAIN_ENUM + DEEP_ENUM + self.seeded_new {
             AnyCase::New(c17_new_seeded(&mut rng))
         } else {
             AnyCase::Crash(gen_crash_case(&mut rng))
